@@ -97,24 +97,35 @@ structure Scan where
 def Scan.fail (sc : Scan) (why : String) : Scan :=
   if sc.ok then { sc with ok := false, why := why } else sc
 
+/-- names unique and indexes in agreement in a dump -/
+def checkDump (sc : Scan) (d : Dump) : Scan :=
+  if dumpOK d then sc else
+    sc.fail (if !keysAgree d then "record-key-mismatch" else if !namesUnique d then "name-not-unique" else "index-disagrees")
+
+/-- a dump right after a successful organization delete shows no dependents -/
+def checkCascade (sc : Scan) (d : Dump) : Scan :=
+  match sc.since with
+  | (.dO id, .okId _) :: _ => if cascaded d id then sc else sc.fail "delete-org-leaves-dependents"
+  | _ => sc
+
+/-- system buckets of the previous dump are still there -/
+def checkSystem (sc : Scan) (d : Dump) : Scan :=
+  match sc.last with
+  | some b => if systemKept b d sc.since then sc else sc.fail "system-bucket-changed"
+  | none => sc
+
+/-- a lookup answered while the raw state is known (only lookups since the last dump) agrees with it -/
+def checkLookup (sc : Scan) (op : Op) (a : Ans) : Scan :=
+  match sc.last with
+  | some d => if sc.since.all (fun p => isLookup p.1) && !lookupOK d op a then sc.fail "lookup-disagrees" else sc
+  | none => sc
+
 def scanStep (sc : Scan) (oa : Op × Ans) : Scan :=
   match oa with
   | (.dump, .dump d) =>
-    let sc := if dumpOK d then sc else
-      sc.fail (if !keysAgree d then "record-key-mismatch" else if !namesUnique d then "name-not-unique" else "index-disagrees")
-    let sc := match sc.since with
-      | (.dO id, .okId _) :: _ => if cascaded d id then sc else sc.fail "delete-org-leaves-dependents"
-      | _ => sc
-    let sc := match sc.last with
-      | some b => if systemKept b d sc.since then sc else sc.fail "system-bucket-changed"
-      | none => sc
-    { sc with last := some d, since := [] }
+    { checkSystem (checkCascade (checkDump sc d) d) d with last := some d, since := [] }
   | (.dump, _) => sc.fail "dump-unreadable"
-  | (op, a) =>
-    let sc := match sc.last with
-      | some d => if sc.since.all (fun p => isLookup p.1) && !lookupOK d op a then sc.fail "lookup-disagrees" else sc
-      | none => sc
-    { sc with since := (op, a) :: sc.since }
+  | (op, a) => { checkLookup sc op a with since := (op, a) :: sc.since }
 
 def scan (tr : List (Op × Ans)) : Scan := tr.foldl scanStep {}
 
